@@ -211,6 +211,11 @@ def osfsStep (files : List (String × Int)) (st : String) : Option (List (String
   | ["w", n] => (stringOfHex? n).map fun name =>
       -- (re)writing a file stamps it with the current time: modelled as "unknown" (0)
       ((files.filter (fun q => !decide (q.1 = name))) ++ [(name, 0)], "w")
+  | ["l", n, m] => do
+      -- a symbolic link to a file whose modification time is m: the file, as far as the processor can tell
+      let name ← stringOfHex? n
+      let mt ← int? m
+      some ((files.filter (fun q => !decide (q.1 = name))) ++ [(name, mt)], "l")
   | ["h", n, _, m] => do
       let name ← stringOfHex? n
       let mt ← int? m
